@@ -329,72 +329,48 @@ def _check_last_index(chk, f, pidx):
 
 
 def _last_term_idiom(f):
-    """True = recognised and correct; str = recognised but wrong (reason); None = not recognised."""
+    """True = recognised and correct; str = recognised shape with a wrong operand (reason); None = not recognised."""
+    from ..canon import Canon
+    from .. import pathsig as PS
+    from ..lr import _drop_noise
+    cn = Canon(f)
     body = f.body.get("c") or []
     loops = [s for s in body if s.get("k") == "ForStmt"]
     if len(loops) != 1:
         return None
     loop = loops[0]
-    p_rule, p_size = f.o["params"][0]["id"], f.o["params"][1]["id"]
-    init = loop.get("init")
-    iv = None
-    for d in (init or {}).get("decls", ()):
-        iv = d
-    if iv is None:
+    conds, nodes = PS.event_conditions(cn, loop["body"], unroll=1, drop=_drop_noise)
+    rets = [(t, c) for (k, t), c in conds.items() if k == "return"]
+    if len(rets) != 1 or any(k in ("break", "continue") for k, t in conds):
         return None
-    it = AI.term(iv.get("init"))
-    cond = AI.atom(loop["cond"])
+    text, cond = rets[0]
+    # the loop variable's canonical form tells direction and range: @i{init..bound}
+    import re as _re
+    m = _re.fullmatch(r"gi\.right_sides\[\$0\]\[(.+)\]\.idx", text)
+    if not m:
+        if text.endswith(".idx") and "right_sides" in text:
+            return "source: the symbol returned is %s, not an element of right_sides[rule]" % text[:80]
+        return None
+    pos = m.group(1)
+    sym = "gi.right_sides[$0][%s]" % pos
+    if not PS.equivalent(cond, PS.dnf([("%s.term" % sym, True)])):
+        return "test: the element is returned when %s instead of when it is a term" % PS.show(cond)[:120]
+    # which elements are visited, in which order
     inc = AI.effects(loop["inc"]) if loop.get("inc") else []
-    step = inc[0][2] if inc and inc[0][0] == "inc" and inc[0][3][0][1] == iv["id"] else None
-    if step is None:
+    step = inc[0][2] if inc and inc[0][0] == "inc" else None
+    fwd_forms = {"@i{0..$1}"}
+    desc_forms = {"@i{($1 - 1)..>=0}": "i", "(@i{$1..>0} - 1)": "pos-1", "@i{($1 - 1)..>-1}": "i"}
+    if pos in desc_forms and step == -1:
+        pass
+    elif pos in fwd_forms and step == 1:
+        return "direction: the right side is scanned from the front and the FIRST term met is returned; the rule's " \
+               "precedence comes from its LAST term"
+    else:
         return None
-    # returns inside the loop: `if (X.term) return X.idx` with X = right_sides[rule][i]
-    rets = []
-    for ev, term_ in flow.paths(loop["body"], unroll=0):
-        if term_ == "return":
-            conds = [e for e in ev if e[0] == "cond"]
-            rets.append((conds, ev[-1][1]))
-    descending = step == -1
-    if descending:
-        # i = size - 1; i >= 0; --i
-        ok_init = it[0] == "bin" and it[1] == "-" and it[2][0] == "path" and it[2][2][0][1] == p_size and \
-            it[3] == ("const", 1)
-        ok_cond = cond[0] == "cmp" and ((cond[1] == ">=" and cond[3] == ("const", 0)) or
-                                       (cond[1] == ">" and cond[3] == ("const", -1)))
-        if not ok_init:
-            return "start: the scan does not start at the last element (starts at %s)" % AI.tstr(it)
-        if not ok_cond:
-            return "bound: the scan does not reach element 0 (%s)" % AI.tstr(("bin", cond[1], cond[2], cond[3]))
-        if len(rets) != 1:
-            return None
-        conds, ret = rets[0]
-        if len(conds) != 1 or not conds[0][2]:
-            return None
-        ct = AI.term(conds[0][1])
-        rt = AI.term(ret.get("value"))
-        if not (ct[0] == "path" and ct[2][-1][0] == "field" and ct[2][-1][1] == P + "symbol::term"):
-            return "test: the scan does not test symbol::term"
-        if not (rt[0] == "path" and rt[2][-1][0] == "field" and rt[2][-1][1] == P + "symbol::idx"):
-            return "result: the scan does not return symbol::idx"
-        # same symbol, taken from right_sides[rule][i]
-        sym_var = ct[2][0]
-        if rt[2][0][:2] != sym_var[:2]:
-            return "result: tests one symbol and returns another"
-        for n in walk(loop["body"]):
-            if n.get("k") == "Var" and n["id"] == sym_var[1]:
-                st = AI.term(n.get("init"))
-                idxs = [c for c in st[2] if c[0] == "index"] if st[0] == "path" else []
-                if not (_reads_field_array(st, "right_sides") and len(idxs) == 2):
-                    return "source: the symbol is not read from right_sides[rule][i]"
-                a, b = AI.term(idxs[0][1]), AI.term(idxs[1][1])
-                if not (a[0] == "path" and a[2][0][1] == p_rule and b[0] == "path" and b[2][0][1] == iv["id"]):
-                    return "source: right_sides is indexed with (%s, %s)" % (AI.tstr(a), AI.tstr(b))
-        # after the loop: sentinel
-        tail = body[body.index(loop) + 1:]
-        if len(tail) != 1 or tail[0].get("k") != "ReturnStmt" or AI.const_of(tail[0].get("value")) not in (65535,):
-            return "fallthrough: a rule without terms does not yield the 'no last term' sentinel"
-        return True
-    return None
+    tail = body[body.index(loop) + 1:]
+    if len(tail) != 1 or tail[0].get("k") != "ReturnStmt" or AI.const_of(tail[0].get("value")) not in (65535,):
+        return "fallthrough: a rule without terms does not yield the 'no last term' sentinel"
+    return True
 
 
 # ------------------------------------------------------------------------------------------------- ORDER
